@@ -1,6 +1,62 @@
-(* Props_C20.v — property C20: ONLY theorem statements. *)
+(* Props_C20.v — property C20: ONLY theorem statements, each closed by [exact] of a lemma from
+   C20_Proofs, followed by Print Assumptions. *)
 From Verif Require Import Base C20_Model C20_Proofs.
 Open Scope Z_scope.
-Theorem c20_ignore_no_change : forall f r, f_ignore f = true -> migrate_column f r = no_change.
+
+(* MigrateColumn leaves alone a column the dialect reports exactly as declared (same type text,
+   nullability, default, comment, uniqueness): no AlterColumn, no constraint change — for every
+   field and every reported column type *)
+Theorem c20_matching_column_untouched : forall f r, matches f r = true -> migrate_column f r = no_change.
+Proof. exact matches_no_change. Qed.
+Print Assumptions c20_matching_column_untouched.
+
+Theorem c20_ignored_field_untouched : forall f r, f_ignore f = true -> migrate_column f r = no_change.
 Proof. exact no_change_ignore. Qed.
-Print Assumptions c20_ignore_no_change.
+Print Assumptions c20_ignored_field_untouched.
+
+(* idempotence relative to the dialect: if what the dialect creates for a field, and what a column
+   becomes once gorm's decision has been applied, are reported back as needing no change, then a
+   second AutoMigrate of the same model issues no statement — for every model (distinct column
+   names) and every initial table state, including "no table" *)
+Theorem c20_idempotent_partial :
+  forall (coldesc : Type) (create : field -> coldesc) (set_unique : coldesc -> bool -> coldesc)
+         (report : coldesc -> reported),
+  (forall f, migrate_column f (report (create f)) = no_change) ->
+  (forall f cd, migrate_column f (report (apply_decision coldesc create set_unique report f cd)) = no_change) ->
+  forall m t, NoDup (map f_name (m_fields m)) ->
+  fst (auto_migrate_table coldesc create set_unique report m
+         (Some (snd (auto_migrate_table coldesc create set_unique report m t)))) = [].
+Proof. exact auto_migrate_idempotent. Qed.
+Print Assumptions c20_idempotent_partial.
+
+(* additivity: after migrating m1, migrating m2 = m1 + fields + constraints + indexes (new columns
+   not present yet) issues only AddColumn / CreateConstraint / CreateIndex *)
+Theorem c20_additive :
+  forall (coldesc : Type) (create : field -> coldesc) (set_unique : coldesc -> bool -> coldesc)
+         (report : coldesc -> reported),
+  (forall f, migrate_column f (report (create f)) = no_change) ->
+  (forall f cd, migrate_column f (report (apply_decision coldesc create set_unique report f cd)) = no_change) ->
+  forall m1 t extra xcons xidx,
+  NoDup (map f_name (m_fields m1 ++ extra)) ->
+  let t1 := snd (auto_migrate_table coldesc create set_unique report m1 t) in
+  (forall f, In f extra -> lookup (f_name f) (t_cols t1) = None) ->
+  let m2 := mk_model (m_table m1) (m_fields m1 ++ extra) (m_constraints m1 ++ xcons) (m_indexes m1 ++ xidx) in
+  Forall additive (fst (auto_migrate_table coldesc create set_unique report m2 (Some t1))).
+Proof. exact extend_only_adds. Qed.
+Print Assumptions c20_additive.
+
+(* none of the additive statements drops a row or a cell *)
+Theorem c20_data_preserved : forall ds fill rows,
+  length (fold_left (fun rs d => exec_additive d fill rs) ds rows) = length rows
+  /\ forall i c v, lookup c (nth i rows []) = Some v ->
+       lookup c (nth i (fold_left (fun rs d => exec_additive d fill rs) ds rows) []) = Some v.
+Proof. exact additive_preserves_data. Qed.
+Print Assumptions c20_data_preserved.
+
+(* non-vacuity: a declared varchar column reported back identically matches; a different reported
+   size does not, and the model then decides to alter *)
+Example c20_matches_instance :
+  let f := mk_field "name" false false "varchar(64) NOT NULL" "varchar(64)" 64 0 true false false "" GOther "" false in
+  matches f (mk_rep "VARCHAR(64) NOT NULL" [] 64 true 0 false false true "" false "" false false true) = true
+  /\ migrate_column f (mk_rep "varchar" [] 100 true 0 false false true "" false "" false false true) = mk_dec true UNone.
+Proof. split; vm_compute; reflexivity. Qed.
